@@ -1,6 +1,6 @@
 """C05 - QuantileLinearRegression fits, and scores with, the pinball loss of its quantile."""
 from vf import loader
-from vf.core import Clause, Outcome, Violation, require, np_scalars
+from vf.core import Clause, Outcome, Violation, require, np_scalars, with_sk
 
 import numpy as np
 from hypothesis import strategies as st
@@ -230,9 +230,9 @@ def _cases(draw, tier="quick", weighted=None, for_score=False):
 
 
 CLAUSES = [
-    Clause("fit", check_fit, strategy=lambda tier: _cases(tier), quick=800, thorough=12000, quick_shards=12,
+    Clause("fit", check_fit, strategy=lambda tier: with_sk(_cases(tier)), quick=800, thorough=12000, quick_shards=12,
            doc="optimality against the exact LP optimum, q vs 1-q, fraction below, positive / fit_intercept flags"),
-    Clause("score", check_score, strategy=lambda tier: _cases(tier, for_score=True), quick=800, thorough=12000, quick_shards=8,
+    Clause("score", check_score, strategy=lambda tier: with_sk(_cases(tier, for_score=True)), quick=800, thorough=12000, quick_shards=8,
            doc="score == 2 * mean pinball loss of the estimator's own quantile; MAE at 0.5; monotone in the true loss"),
     Clause("weights", check_weights, strategy=lambda tier: st.builds(lambda c, z: dict(c, zero_w=z), _cases(tier, weighted=True),
                                                                      st.one_of(st.just([]), st.lists(st.integers(0, 59), min_size=1, max_size=4))), quick=400, thorough=6000, quick_shards=4,
